@@ -8,6 +8,8 @@
 struct mfile mfiles[MAXFILES]; int nmfiles;
 const char *kind_names[K_NKINDS] = { "open", "read", "write", "seek", "alloc", "tell", "close", "free", "copy", "msg" };
 long calls[K_NKINDS]; long faults_hit; int sm_trace; int sm_fill = 0xAA; long sm_viol; long sm_written_total;
+int sm_recycle;     /* 1: a freed block is handed out again, contents untouched, to the next alloc of the same size (what a real heap tends to do) */
+static struct { void *p; size_t n; } pool[64]; static int npool;
 struct fault sm_faults[8]; int sm_nfaults;
 static char violtext[32][200]; static int nvioltext;
 
@@ -153,8 +155,9 @@ static void *m_alloc(struct mspack_system *s, size_t n) {
   void *p; (void) s;
   if (faulty(K_ALLOC, NULL)) { if (sm_trace) printf("cb alloc %zu fail\n", n); return NULL; }
   if (n > ((size_t) 1 << 31)) { sm_violation("alloc of %zu bytes", n); return NULL; }
-  p = malloc(n ? n : 1); if (!p) return NULL;
-  memset(p, sm_fill, n);
+  p = NULL;
+  if (sm_recycle) { int i; for (i = npool; i-- > 0; ) if (pool[i].n == n) { p = pool[i].p; pool[i] = pool[--npool]; break; } }
+  if (!p) { p = malloc(n ? n : 1); if (!p) return NULL; memset(p, sm_fill, n); }
   if (narecs == caprecs) { caprecs = caprecs ? 2 * caprecs : 256; arecs = realloc(arecs, caprecs * sizeof *arecs); }
   arecs[narecs].p = p; arecs[narecs].n = n; arecs[narecs].id = nextid++; arecs[narecs].live = 1; narecs++;
   if (sm_trace) printf("cb alloc %zu ok @%d\n", n, arecs[narecs - 1].id);
@@ -172,7 +175,8 @@ static void m_free(void *p) {
   }
   arecs[i].live = 0;
   if (sm_trace) printf("cb free @%d\n", arecs[i].id);
-  free(p);
+  if (sm_recycle && npool < 64) { pool[npool].p = p; pool[npool].n = arecs[i].n; npool++; arecs[i].p = NULL; }
+  else free(p);
 }
 static void m_copy(void *src, void *dst, size_t n) {
   calls[K_COPY]++;
@@ -205,5 +209,6 @@ void sm_reset(void) {
   for (j = 0; j < nmfiles; j++) { free(mfiles[j].data); }
   memset(mfiles, 0, sizeof mfiles); nmfiles = 0;
   memset(calls, 0, sizeof calls); faults_hit = 0; sm_nfaults = 0; sm_viol = 0; nvioltext = 0; nextid = 1; sm_written_total = 0;
-  sm_fill = 0xAA; sm_trace = 0;
+  sm_fill = 0xAA; sm_trace = 0; sm_recycle = 0;
+  while (npool > 0) free(pool[--npool].p);
 }
